@@ -165,6 +165,8 @@ def check(plan, res):
             ret = int(kv['ret']); tc = int(kv['t'])
             cands = [en for en in entries.values() if en['owner'] == w[1] and en['fn'] == w[2] and en['idx'] < idx and en['removed'] is None
                      and not any(f[0] < idx for f in en['fires'])]
+            if any(en['ambig'] for en in cands):
+                continue    # an earlier "-1" may have been "removed with one second overdue": nothing is known about that entry any more
             if len(cands) == 1:
                 en = cands[0]
                 if ret == -1 and en['due'] - tc == -1:
